@@ -461,6 +461,31 @@ theorem pybqm_changeVartype_after_history (vt : En.VT) (ops : List (HOp Rat)) :
     rw [pybqm_changeVartype_toSpin_any_state _ i hvt]
     congr 1; funext v; ring
 
+/-- **`evalL` is the polynomial of what the dict back-end reports** — offset, `linear[v] = _adj[v][v]`, and every interaction
+    once as `iter_quadratic()` yields it (first endpoint in insertion order) — on every state satisfying the invariant -/
+theorem pybqm_evalL_is_reported (m : LBqm Rat) (i : LInv m) (x : Label → Rat) : evalL (1/2) m x = repEval m x :=
+  evalL_eq_repEval m i x
+
+/-- **conversion after any history, in terms of the reported coefficients**: the energy computed from `offset`, `linear`,
+    `iter_quadratic` of the converted model at the converted sample equals the one computed from those of the model the
+    history reached, at the sample -/
+theorem pybqm_changeVartype_after_history_reported (vt : En.VT) (ops : List (HOp Rat)) :
+    ((LBqm.hrun vt ops).vt = .spin → ∀ s : Label → Rat,
+      repEval ((LBqm.hrun vt ops).changeVartypeWith pyToBinary pyToSpin .binary) (fun v => (s v + 1) / 2)
+        = repEval (LBqm.hrun vt ops) s) ∧
+    ((LBqm.hrun vt ops).vt = .binary → ∀ x : Label → Rat,
+      repEval ((LBqm.hrun vt ops).changeVartypeWith pyToBinary pyToSpin .spin) (fun v => 2 * x v - 1)
+        = repEval (LBqm.hrun vt ops) x) := by
+  have g := GInv.hrun vt ops
+  have h := pybqm_changeVartype_after_history vt ops
+  constructor
+  · intro hvt s
+    rw [← evalL_eq_repEval _ (g.changeVartype pyToBinary pyToSpin .binary).toLInv, ← evalL_eq_repEval _ g.toLInv]
+    exact h.1 hvt s
+  · intro hvt x
+    rw [← evalL_eq_repEval _ (g.changeVartype pyToBinary pyToSpin .spin).toLInv, ← evalL_eq_repEval _ g.toLInv]
+    exact h.2 hvt x
+
 /-- non-vacuity, the state seeded change C02-5 needs: `a` with an interaction is relabelled to `c`; the linear entry of `c`
     is first in its neighbourhood as coded (the theorem above does not depend on that) -/
 example : (LBqm.hrun .spin [.addLinear (.int 0) 1, .addQuadratic (.int 0) (.int 1) 2, .relabel (.int 0) (.int 2)]).rawOrder
